@@ -1,14 +1,29 @@
 """C18 — reduce_size enforces every limit by evicting the minimal LRU prefix.
 
-Model: lean/JoblibModel/Lru.lean; theorems: lean/JoblibProofs/C18.lean; driver: Driver/C18.lean.
-Implementation side: real `Memory.reduce_size` on inventories built on disk in a scratch
-directory (real cached calls + synthetic entries for zero sizes), access times set with os.utime.
+Model: lean/JoblibModel/Lru.lean (selection) + lean/JoblibModel/StoreLimits.lean (inventory walk, size-string parser,
+deletion loop, reduce_size); theorems: lean/JoblibProofs/C18.lean; driver: lean/Driver/C18.lean.
+
+Implementation side: real `Memory.reduce_size` on stores built on disk in a scratch directory:
+* entries of up to three cached functions in ONE store — real cached calls of functions taking EQUAL arguments (equal
+  argument hash → equal entry basenames under different function directories; one of the functions lives in a nested
+  module path, so the walk is deeper), synthetic entries (zero sizes, entries without output.pkl, entries whose name merely
+  STARTS with 32 hex digits, entries made unreadable by a dangling symbolic link), stray files / directories that are no
+  entries (31 hex digits, upper-case hex, plain names);
+* the store is read by the harness's OWN walk (os.scandir) into a tree that is what the model gets; the model's
+  `getItems` of that tree is compared with `store_backend.get_items()`;
+* `clear_location` faults are injected through a registered `FileSystemStoreBackend` subclass (the stale NFS handle of the
+  code comment: the victim is removed and `OSError(ESTALE)` raised); the same subclass records the calls made;
+* `bytes_limit` as int or as a string of the modelled grammar; a separate stream feeds `memstr_to_bytes` directly.
+The oracle never uses the model: it judges the directories left on disk against the harness's own inventory.
 """
 
 import datetime
+import errno
 import os
 import re
+import shutil
 import time
+from fractions import Fraction
 
 from .. import core
 from ..core import Result
@@ -20,52 +35,290 @@ REQUIRED_THEOREMS = [
     "C18.minimal",
     "C18.none_means_no_limit",
     "C18.satisfied_evicts_nothing",
+    "C18.get_items_one_per_entry",
+    "C18.get_items_size_is_sum",
+    "C18.get_items_skips_unreadable",
+    "C18.enforce_attempts_every_selected",
+    "C18.reduce_size_limits_hold",
+    "C18.reduce_size_evicts_minimal_lru_prefix",
+    "C18.memstr_exact",
+    "C18.memstr_rejects_bad_unit",
+    "C18.no_limits_no_change",
 ]
 TRUSTED_EXTRA = [
-    "modelled, not verified: os.walk/getatime/getsize inventory (fed to the model as read by store_backend.get_items()), "
-    "shutil.rmtree, datetime.now() - age_limit (the deadline is an input of the model; ages are kept >= 400 s from it)",
-    "memstr_to_bytes with a fractional mantissa goes through a Python float: correspondence only",
+    "modelled, not verified: os.scandir/os.walk listing order and stat results (read by the harness's own walk and given to the "
+    "model as a tree), shutil.rmtree removing what it is asked to, datetime.now() - age_limit (the deadline is an input of the "
+    "model; ages are kept >= 400 s from it)",
+    "memstr_to_bytes goes through a Python float: the model computes the exact rational value; agreement holds for "
+    "digits * unit < 2**53 (argument in StoreLimits.lean) and is checked by correspondence inside that budget; mantissas with "
+    "characters outside [0-9.+-] (exponents, inf/nan, underscores, blanks) are outside the model",
+    "'os.path.getatime(directory) raises' is modelled and proved about but cannot be produced on a quiescent file system; "
+    "'getsize raises' / 'getatime(output.pkl) raises' are exercised with dangling symbolic links",
+    "hash directories nested in hash directories (a cached function / module whose NAME starts with 32 hex digits; a pathlib "
+    "store location with such a name) are excluded by the hypotheses Separated / RootNotItem of the end-to-end theorems; "
+    "F47, C18.nested_hash_dir_counterexample, C18.hash_named_root_counterexample; the nested stream reproduces it",
+    "memstr_to_bytes as it is (the model follows the code, the malformed stream compares the exception CLASS): '' raises "
+    "IndexError (text[-1] is outside the except clause), 'infK' / '1e999K' raise OverflowError (outside the modelled grammar), "
+    "'1 K' is accepted (= 1024: float() strips blanks; outside the modelled grammar)",
 ]
 
 EXEC_LOG = []
+HEX_RE = re.compile("[a-f0-9]{32}")
+_EPOCH = datetime.datetime(1970, 1, 1)
+_US = datetime.timedelta(microseconds=1)
 
 
 def _payload(i, n):
-    EXEC_LOG.append(i)
+    EXEC_LOG.append((0, i))
     return b"x" * n
+
+
+def _payload_b(i, n):
+    EXEC_LOG.append((1, i))
+    return b"y" * n
+
+
+def _payload_c(i, n):
+    EXEC_LOG.append((2, i))
+    return b"z" * n
+
+
+_payload_c.__module__ = "c18deep.pkg.sub.mod"  # function directory four levels further down
+
+
+def _hexnamed(i, n):
+    EXEC_LOG.append((3, i))
+    return b"h" * n
+
+
+_hexnamed.__name__ = "deadbeefdeadbeefdeadbeefdeadbeef"  # a function NAME that starts with 32 hex digits (nested stream)
+
+# The nested stream reproduces F47 (known_findings.json: directories that are no entries but whose NAME starts with 32 hex
+# digits - a function directory, the store location - are inventoried as entries and evicted as such).
+RUN_NESTED_STREAM = True
+_FUNCS = [_payload, _payload_b, _payload_c]
+_FILL = [b"x", b"y", b"z"]
+
+
+# ----------------------------------------------------------------------------- fault-injecting backend
+
+_BACKEND = {}
+
+
+def _backend(joblib):
+    """A FileSystemStoreBackend (of the tree under test) whose clear_location records its calls and, for the locations
+    in `stale`, behaves like the stale NFS folder: the folder is gone and OSError(ESTALE) is raised."""
+    if "cls" in _BACKEND:
+        return _BACKEND["cls"]
+    from joblib._store_backends import FileSystemStoreBackend
+
+    class Faulty(FileSystemStoreBackend):
+        calls = []
+        stale = set()
+        armed = False
+
+        def clear_location(self, location):
+            if Faulty.armed:
+                Faulty.calls.append(location)
+                if location in Faulty.stale:
+                    shutil.rmtree(location, ignore_errors=True)  # the other client's work
+                    raise OSError(errno.ESTALE, "Stale file handle", location)
+            super().clear_location(location)
+
+    joblib.register_store_backend("c18faulty", Faulty)
+    _BACKEND["cls"] = Faulty
+    return Faulty
+
+
+# ----------------------------------------------------------------------------- the harness's own reading of the store
+
+
+def _us(ts):
+    """Seconds (float, as os.path.getatime returns) -> whole microseconds, rounded like datetime.fromtimestamp does."""
+    return (datetime.datetime.fromtimestamp(ts) - _EPOCH) // _US
+
+
+def _dt_us(dt):
+    return (dt - _EPOCH) // _US
+
+
+def _scan(path):
+    with os.scandir(path) as it:
+        ents = list(it)
+    return [e for e in ents if e.is_dir()], [e for e in ents if not e.is_dir()]
+
+
+def _warm(path):
+    """List every directory once: relatime refreshes a directory's atime on the first listing after a change, not again."""
+    subs, _ = _scan(path)
+    for e in subs:
+        _warm(e.path)
+
+
+def _stat(fn, p):
+    try:
+        return fn(p)
+    except OSError:
+        return None
+
+
+def _read_tree(path, name):
+    """(name, atime_us|None, [(fname, size|None, atime_us|None)], [subtrees]) in listing order."""
+    subs, files = _scan(path)
+    at = _stat(os.path.getatime, path)
+    fl = []
+    for e in files:
+        s = _stat(os.path.getsize, e.path)
+        a = _stat(os.path.getatime, e.path)
+        fl.append((e.name, s, None if a is None else _us(a)))
+    return (name, None if at is None else _us(at), fl, [_read_tree(e.path, e.name) for e in subs])
+
+
+def _settled_tree(root, dir_atimes_matter):
+    """The tree once the directory atimes no longer move (a listing in the clock tick of the last change is followed by
+    one more refresh)."""
+    if dir_atimes_matter:
+        time.sleep(0.02)
+    _warm(root)
+    tree = _read_tree(root, os.path.basename(root))
+    for _ in range(5):
+        again = _read_tree(root, os.path.basename(root))
+        if again == tree:
+            return tree
+        time.sleep(0.02)
+        tree = again
+    raise core.InfraError("directory access times do not settle")
+
+
+def _tree_tokens(t):
+    name, at, files, subs = t
+    st = lambda v: "!" if v is None else str(v)  # noqa: E731
+    out = ["D", name, st(at), str(len(files))]
+    for fn, s, a in files:
+        out += [fn, st(s), st(a)]
+    out.append(str(len(subs)))
+    for s in subs:
+        out += _tree_tokens(s)
+    return out
+
+
+def _dirs_of(t, prefix=()):
+    """All directories of a tree as relative paths ('.' = the store location), pre-order."""
+    out = ["/".join(prefix) or "."]
+    for s in t[3]:
+        out += _dirs_of(s, prefix + (s[0],))
+    return out
+
+
+def _own_inventory(t, prefix=()):
+    """The harness's own inventory: every directory whose basename starts with 32 lower-case hex digits and whose files
+    can all be stat'ed: (relative path, total size of the files directly in it, last access in microseconds)."""
+    name, at, files, subs = t
+    out = []
+    if HEX_RE.match(name):
+        pk = [a for fn, _, a in files if fn == "output.pkl"]
+        la = pk[0] if pk and pk[0] is not None else at
+        if la is not None and all(s is not None for _, s, _ in files):
+            out.append(("/".join(prefix) or ".", sum(s for _, s, _ in files), la))
+    for s in subs:
+        out += _own_inventory(s, prefix + (s[0],))
+    return out
+
+
+# ----------------------------------------------------------------------------- size strings
+
+
+def _frac_str(b, unit):
+    """The exact decimal spelling of b bytes in `unit` (K/M): b / 1024**j always has a finite decimal expansion."""
+    j = dict(K=1, M=2)[unit]
+    num = b * 5 ** (10 * j)  # b / 2**(10 j) = b * 5**(10 j) / 10**(10 j)
+    digits = 10 * j
+    s = str(abs(num)).rjust(digits + 1, "0")
+    ip, fp = s[:-digits], s[-digits:].rstrip("0")
+    return ("-" if b < 0 else "") + ip + ("." + fp if fp else "") + unit
+
+
+def _exact_memstr(s):
+    """Exact value of a size string of the modelled grammar (rational arithmetic; independent of model and code)."""
+    unit = dict(K=1024, M=1024**2, G=1024**3)[s[-1]]
+    m = s[:-1]
+    if not re.fullmatch(r"[+-]?(\d+(\.\d*)?|\.\d+)", m):
+        raise ValueError(s)
+    v = Fraction(m if not m.endswith(".") else m + "0") * unit
+    return int(v)  # int() of a Fraction truncates toward zero
+
+
+def _in_budget(s):
+    digits = re.sub(r"[^0-9]", "", s[:-1])
+    unit = dict(K=1024, M=1024**2, G=1024**3)[s[-1]]
+    return int(digits or "0") * unit < 2**53
+
+
+def _cps(s):
+    return ",".join(str(ord(c)) for c in s)
+
+
+# ----------------------------------------------------------------------------- case generation
 
 
 def _gen_case(rng, big=False):
     n = rng.choice([0, 1, 1, 2, 3, 3, 4, 5, 6, 8] + ([12, 20] if big else []))
-    n_real = rng.randint(0, n)
+    nfuncs = rng.choice([1, 2, 2, 3, 3])
     entries = []
     for i in range(n):
-        real = i < n_real
-        # at most one entry directory without output.pkl (writer died / unpicklable result); its age is the
-        # directory's atime, which listing the directory refreshes: it is always the most recently used entry
-        incomplete = (not real) and rng.random() < 0.25 and not any(e["incomplete"] for e in entries)
-        if real:
+        func = rng.randrange(nfuncs)
+        kind = "real" if rng.random() < 0.55 else rng.choice(["synth", "synth", "synth", "prefix", "incomplete", "unreadable", "pklgone"])
+        # equal arguments across functions are the point: draw the argument from a small pool (unique within a function)
+        arg = rng.randrange(max(2, (n + 1) // 2))
+        if any(e["func"] == func and e["arg"] == arg for e in entries):
+            arg = 100 + i
+        if kind == "real":
             size = rng.choice([0, 1, 10, 100, 500, 1000, 1024, 3000])
+            twins = [e for e in entries if e["kind"] == "real" and e["arg"] == arg]
+            if twins and rng.random() < 0.85:
+                size = twins[0]["size"]  # same (i, n) arguments -> same argument hash under another function
         else:
             size = rng.choice([0, 0, 1, 7, 512, 1023, 1024, 1025, 2048])
         k = rng.randint(0, 3) if rng.random() < 0.5 else rng.randint(0, n + 1)  # ties are common
-        entries.append(dict(real=real, arg=i, size=size, k=k, incomplete=incomplete))
-    return dict(entries=entries, lim=None)
+        entries.append(dict(func=func, kind=kind, arg=arg, size=size, k=k,
+                            extra=rng.choice([0, 0, 0, 5, 300]) if kind != "real" else 0,
+                            sub=rng.choice([0, 0, 0, 0, 700]) if kind != "real" else 0,
+                            suffix=rng.choice(["x", "_tmp", ".bak", "0", "-old"])))
+    strays = [s for s in ("file-in-func", "dir31", "dirUPPER", "plain-dir", "file-in-root", "deep-empty") if rng.random() < 0.3]
+    return dict(entries=entries, strays=strays, lim=None, faults=None, no_backend=rng.random() < 0.03)
+
+
+def _ref_prefix(items, b, il, deadline):
+    """Length of the shortest LRU prefix meeting the limits (reference computation for choosing limits/victims only)."""
+    srt = sorted(items, key=lambda t: t[2])
+    for k in range(len(srt) + 1):
+        rest = srt[k:]
+        if b is not None and sum(s for _, s, _ in rest) > b:
+            continue
+        if il is not None and len(rest) > il:
+            continue
+        if deadline is not None and any(a <= deadline for _, _, a in rest):
+            continue
+        return k, srt
+    return len(srt), srt
 
 
 def _limits_for(rng, items):
-    """items: list of (id, size, access). Boundary-biased limits."""
+    """items: list of (id, size, access). Boundary-biased limits; bytes as int or as a string of the modelled grammar."""
     n = len(items)
     tot = sum(s for _, s, _ in items)
     srt = sorted(items, key=lambda t: t[2])
     suffix_sums = [sum(s for _, s, _ in srt[j:]) for j in range(n + 1)]
-    b_choices = [None, None, 0, tot, tot - 1, tot + 1] + suffix_sums + [x + d for x in suffix_sums for d in (-1, 1)]
-    b = None if rng.random() < 0.4 else rng.choice(b_choices[2:])
-    if b is not None and b < 0:
-        b = 0
+    b_choices = [0, tot, tot - 1, tot + 1] + suffix_sums + [x + d for x in suffix_sums for d in (-1, 1)]
+    b = None if rng.random() < 0.4 else max(0, rng.choice(b_choices))
     bstr = None
-    if rng.random() < 0.2:
-        bstr = rng.choice(["1K", "2K", "0K", "3K", "1M", "1.5K", "0.5K"])
+    r = rng.random()
+    if r < 0.12:
+        bstr = rng.choice(["1K", "2K", "0K", "3K", "1M", "1.5K", "0.5K", "0.001M", "1.K", ".5K", "+2K", "0.0009765625K"])
+    elif r < 0.30 and b is not None:
+        bstr = _frac_str(b, rng.choice("KKM"))  # the exact-fit (+-1 byte) value spelt as fractional K / M
+        if not _in_budget(bstr):
+            bstr = None
     il = None if rng.random() < 0.45 else rng.choice([0, 1, n - 1, n - 1, n - 2, n, n + 1, rng.randint(0, n + 2)])
     if il is not None and il < 0:
         il = 0
@@ -73,9 +326,23 @@ def _limits_for(rng, items):
     return b, bstr, il, j
 
 
-def _memstr(s):
-    units = dict(K=1024, M=1024**2, G=1024**3)
-    return int(units[s[-1]] * float(s[:-1]))
+def _faults_for(rng, k):
+    """Positions (ranks in the LRU order) whose clear_location raises; k = expected number of evictions."""
+    r = rng.random()
+    if r < 0.45 or k == 0:
+        return []
+    if r < 0.60:
+        return [0]
+    if r < 0.72:
+        return [k // 2]
+    if r < 0.82:
+        return [k - 1]
+    if r < 0.92:
+        return sorted({rng.randrange(k + 1) for _ in range(rng.randint(2, 4))})
+    return list(range(k + 1))
+
+
+# ----------------------------------------------------------------------------- oracle
 
 
 def _oracle(items, deleted_ids, b, il, deadline):
@@ -106,102 +373,194 @@ def _oracle(items, deleted_ids, b, il, deadline):
     return bad
 
 
-def _run_case(ctx, res, case, idx, requests, pending):
-    joblib = core.use_repo()
+# ----------------------------------------------------------------------------- one store case
+
+
+def _build_store(ctx, joblib, case, idx):
+    """Creates the store of `case`; returns (mem, cached funcs, location, {relative entry path: entry dict})."""
+    Faulty = _backend(joblib)
+    Faulty.armed = False
     loc = ctx.scratch / f"case{idx}"
-    mem = joblib.Memory(str(loc), verbose=0)
-    f = mem.cache(_payload)
-    EXEC_LOG.clear()
-    real_dirs = {}
+    mem = joblib.Memory(str(loc), backend="c18faulty", verbose=0)
+    if not isinstance(mem.store_backend, Faulty):
+        raise core.InfraError("fault-injecting backend not in use")
+    root = mem.store_backend.location
+    cached = [mem.cache(f) for f in _FUNCS]
+    func_dirs = {}
+    by_rel = {}
     for e in case["entries"]:
-        if e["real"]:
-            ref = f.call_and_shelve(e["arg"], e["size"])
-            real_dirs[e["arg"]] = os.path.join(mem.store_backend.location, ref.func_id, ref.args_id)
-    func_dir = None
-    for p in real_dirs.values():
-        func_dir = os.path.dirname(p)
-    if func_dir is None:
-        func_dir = os.path.join(mem.store_backend.location, "synthetic", "func")
-        os.makedirs(func_dir, exist_ok=True)
-    paths = {}
+        if e["kind"] == "real":
+            ref = cached[e["func"]].call_and_shelve(e["arg"], e["size"])
+            fd = os.path.join(root, ref.func_id)
+            func_dirs[e["func"]] = fd
+            e["_path"] = os.path.join(fd, ref.args_id)
     for e in case["entries"]:
-        if e["real"]:
-            paths[e["arg"]] = real_dirs[e["arg"]]
-        else:
-            p = os.path.join(func_dir, "%032x" % (0xABC000 + e["arg"]))
-            os.makedirs(p, exist_ok=True)
-            with open(os.path.join(p, "metadata.json" if e.get("incomplete") else "output.pkl"), "wb") as fh:
-                fh.write(b"\0" * e["size"])
-            paths[e["arg"]] = p
+        if e["kind"] == "real":
+            continue
+        fd = func_dirs.get(e["func"])
+        if fd is None:
+            fd = os.path.join(root, "synthetic", "mod%d" % e["func"], "func")
+            os.makedirs(fd, exist_ok=True)
+            func_dirs[e["func"]] = fd
+        name = "%032x" % (0xABC000 + e["arg"])
+        if e["kind"] == "prefix":
+            name += e["suffix"]
+        p = os.path.join(fd, name)
+        os.makedirs(p, exist_ok=True)
+        main = "metadata.json" if e["kind"] == "incomplete" else "output.pkl"
+        if e["kind"] == "pklgone":
+            os.symlink(os.path.join(p, "no-such-target"), os.path.join(p, "output.pkl"))  # getatime(output.pkl) raises
+            main = "metadata.json"
+        with open(os.path.join(p, main), "wb") as fh:
+            fh.write(b"\0" * e["size"])
+        if e["extra"]:
+            with open(os.path.join(p, "metadata.json" if main == "output.pkl" else "extra.bin"), "wb") as fh:
+                fh.write(b"\1" * e["extra"])
+        if e.get("sub"):  # a sub-directory inside the entry: its files are not part of the entry's size
+            os.makedirs(os.path.join(p, "parts", "deeper"), exist_ok=True)
+            with open(os.path.join(p, "parts", "blob"), "wb") as fh:
+                fh.write(b"\2" * e["sub"])
+            with open(os.path.join(p, "parts", "deeper", "blob"), "wb") as fh:
+                fh.write(b"\3" * 11)
+        if e["kind"] == "unreadable":
+            os.symlink(os.path.join(p, "no-such-target"), os.path.join(p, "vanishing.tmp"))  # getsize raises
+        e["_path"] = p
+    some_fd = next(iter(func_dirs.values()), None)
+    for s in case["strays"]:
+        if s == "file-in-func" and some_fd:
+            open(os.path.join(some_fd, "notes.txt"), "wb").write(b"n" * 11)
+        elif s == "dir31" and some_fd:
+            os.makedirs(os.path.join(some_fd, "%031x" % 0xABC001), exist_ok=True)
+            open(os.path.join(some_fd, "%031x" % 0xABC001, "output.pkl"), "wb").write(b"s" * 900)
+        elif s == "dirUPPER" and some_fd:
+            os.makedirs(os.path.join(some_fd, ("%032x" % 0xABCDEF01).upper().replace("0", "A")), exist_ok=True)
+        elif s == "plain-dir":
+            os.makedirs(os.path.join(root, "lost+found", "sub"), exist_ok=True)
+            open(os.path.join(root, "lost+found", "sub", "output.pkl"), "wb").write(b"s" * 700)
+        elif s == "file-in-root":
+            open(os.path.join(root, "README"), "wb").write(b"r" * 13)
+        elif s == "deep-empty":
+            os.makedirs(os.path.join(root, "a", "b", "c", "d", "e"), exist_ok=True)
     now = int(time.time())
     base = now - 100000
     for e in case["entries"]:
-        t = base + 50000 if e.get("incomplete") else base - 1000 * e["k"]
-        tgt = paths[e["arg"]] if e.get("incomplete") else os.path.join(paths[e["arg"]], "output.pkl")
-        os.utime(tgt, (t, t))
-    by_path = {p: a for a, p in paths.items()}
-    # the inventory, read independently of the store backend: every entry directory, its files' total size, the
-    # access time of output.pkl (of the directory when there is no output.pkl)
-    own = {}
-    for a, p in paths.items():
-        files = [os.path.join(p, f) for f in os.listdir(p)]
-        out = os.path.join(p, "output.pkl")
-        own[a] = (a, sum(os.path.getsize(f) for f in files),
-                  int(os.path.getatime(out)) if os.path.exists(out) else base + 50000)
-    # order of equal access times: the order in which the backend lists the entries (stable sort); entries it does
-    # not list at all are appended (the oracle below still judges the cache by every entry that is on disk)
+        t = base - 1000 * e["k"]
+        pk = os.path.join(e["_path"], "output.pkl")
+        if e["kind"] in ("incomplete", "pklgone"):
+            continue  # no output.pkl to stat: the age is the directory's atime (refreshed by the first listing)
+        os.utime(pk, (t, t))
+    for e in case["entries"]:
+        by_rel[os.path.relpath(e["_path"], root)] = e
+    return mem, cached, root, by_rel, base, now
+
+
+def _run_case(ctx, res, case, idx, requests, pending):
+    joblib = core.use_repo()
+    Faulty = _backend(joblib)
+    EXEC_LOG.clear()
+    mem, cached, root, by_rel, base, now = _build_store(ctx, joblib, case, idx)
+    tree = _settled_tree(root, any(e["kind"] in ("incomplete", "pklgone") for e in case["entries"]))
+    items = _own_inventory(tree)  # [(relpath, size, atime_us)]
+    dirs_before = _dirs_of(tree)
+    spec = dict(entries=[{k: v for k, v in e.items() if not k.startswith("_")} for e in case["entries"]],
+                strays=case["strays"], no_backend=case["no_backend"])
+
+    # --- inventory correspondence: model getItems(tree) vs store_backend.get_items()
     try:
         inv = mem.store_backend.get_items()
+        impl_items = sorted((os.path.relpath(it.path, root), it.size, _dt_us(it.last_access)) for it in inv)
     except Exception as e:  # noqa: BLE001
-        inv = []
-        res.fail("get_items-raises:" + type(e).__name__, dict(entries=case["entries"]), repr(e))
-    order = [by_path[it.path] for it in inv if it.path in by_path]
-    order += [a for a in own if a not in order]
-    items = [own[a] for a in order]
+        impl_items = "raises:" + type(e).__name__
+        res.fail("get_items-raises:" + type(e).__name__, dict(spec=spec), repr(e))
+    requests.append("items " + " ".join(_tree_tokens(tree)))
+    pending.append(("items", dict(spec=spec, own_inventory=items), impl_items))
+    nfd = len({os.path.dirname(p) for p, _, _ in items})
+    res.count(f"function-dirs-with-entries={nfd}")
+    base_names = [os.path.basename(p) for p, _, _ in items]
+    if len(set(base_names)) < len(base_names):
+        res.count("equal-basenames-in-one-store")
+    # --- limits, faults
     if case["lim"] is None:
         case["lim"] = _limits_for(ctx.rng(f"lim{idx}"), items)
     b, bstr, il, j = case["lim"]
     if bstr is not None:
-        b_model = _memstr(bstr)
-        b_arg = bstr
+        b_exact, b_arg = _exact_memstr(bstr), bstr
     else:
-        b_model, b_arg = b, b
+        b_exact, b_arg = b, b
     if j is None:
         age, deadline = None, None
     else:
-        deadline = base - 1000 * j - 500
-        age = datetime.timedelta(seconds=now - deadline)
-    before = set(paths.values())
+        deadline_s = base - 1000 * j - 500
+        deadline = deadline_s * 10**6
+        age = datetime.timedelta(seconds=now - deadline_s)
+    kref, srt = _ref_prefix(items, b_exact, il, deadline)
+    if case["faults"] is None:
+        case["faults"] = _faults_for(ctx.rng(f"faults{idx}"), kref)
+    fault_paths = [srt[r][0] for r in case["faults"] if r < len(srt)]
+    all_none = b_arg is None and il is None and age is None
+
+    # --- the call
+    Faulty.calls = []
+    Faulty.stale = {os.path.join(root, p) for p in fault_paths}
+    Faulty.armed = True
+    target = joblib.Memory(location=None, verbose=0) if case["no_backend"] else mem
     try:
-        mem.reduce_size(bytes_limit=b_arg, items_limit=il, age_limit=age)
+        target.reduce_size(bytes_limit=b_arg, items_limit=il, age_limit=age)
         outcome = "ok"
     except Exception as e:  # noqa: BLE001
         outcome = "raises:" + type(e).__name__
-    surviving = {p for p in before if os.path.isdir(p)}
-    deleted = sorted(by_path[p] for p in before - surviving)
-    desc = dict(items=items, bytes_limit=b_arg, items_limit=il, deadline_rel=None if j is None else j,
-                deadline=deadline, deleted=deleted, outcome=outcome)
+    finally:
+        Faulty.armed = False
+        Faulty.stale = set()
+    calls = [os.path.relpath(p, root) for p in Faulty.calls]
+    tree_after = _read_tree(root, os.path.basename(root))
+    dirs_after = _dirs_of(tree_after)
+    gone = set(dirs_before) - set(dirs_after)
+    deleted = sorted(p for p, _, _ in items if p in gone)
+    try:
+        inv2 = mem.store_backend.get_items()
+        impl_items_after = sorted((os.path.relpath(it.path, root), it.size, _dt_us(it.last_access)) for it in inv2)
+    except Exception as e:  # noqa: BLE001
+        impl_items_after = "raises:" + type(e).__name__
+    desc = dict(spec=spec, lim=[b, bstr, il, j], faults=case["faults"], items=items, bytes_limit=b_arg, items_limit=il,
+                deadline=deadline, fault_paths=fault_paths, deleted=deleted, calls=calls, outcome=outcome)
     res.evaluations += 1
     res.count(f"n={len(items)}")
     res.count("limits=" + "".join(c if v is not None else "-" for c, v in zip("BIA", (b_arg, il, age))))
+    res.count("bytes_limit=" + ("none" if b_arg is None else "str" if bstr is not None else "int"))
     res.count("deleted=" + ("none" if not deleted else "all" if len(deleted) == len(items) else "some"))
-    if items and (b_arg is not None or il is not None or age is not None):
-        key = (tuple((s, a - base) for _, s, a in items), b_model, il, j)
+    res.count("faults=" + ("none" if not fault_paths else "first" if case["faults"] == [0] else
+                           "last" if case["faults"] == [kref - 1] else "one" if len(fault_paths) == 1 else "several"))
+    if case["no_backend"]:
+        res.count("Memory(location=None)")
+    for e in case["entries"]:
+        res.count("entry-kind=" + e["kind"])
+        if e.get("sub"):
+            res.count("entry-with-sub-directory")
+    if items and not all_none:
+        key = (tuple((os.path.dirname(p), s, a - base * 10**6) for p, s, a in items), b_exact, il, j, tuple(case["faults"]))
         res.nontrivial.add(key)
     res.sample(desc)
-    # oracle on the implementation
+
+    # --- oracle on the implementation (the harness's own inventory; never the model)
     if outcome != "ok":
         res.fail("reduce_size-" + outcome, desc, outcome)
     else:
-        all_none = b_arg is None and il is None and age is None
-        for sig in ([] if all_none else _oracle(items, set(deleted), b_model, il, deadline)):
-            res.fail(sig, desc, sig)
-        if all_none and deleted:
-            res.fail("evicts-without-limit", desc, "deleted with no limit")
+        if all_none or case["no_backend"]:
+            if gone:
+                res.fail("evicts-without-limit", desc, sorted(gone))
+        else:
+            for sig in _oracle(items, set(deleted), b_exact, il, deadline):
+                res.fail(sig, desc, sig)
+        collateral = sorted(p for p in gone if not any(p == d or p.startswith(d + "/") for d in deleted))
+        if collateral:
+            res.fail("non-entry-directory-removed", desc, collateral)
         # survivors stay loadable, evicted ones are recomputed on demand
         for e in case["entries"]:
-            if not e["real"]:
+            if e["kind"] != "real":
                 continue
+            rel = os.path.relpath(e["_path"], root)
+            f = cached[e["func"]]
             EXEC_LOG.clear()
             hit = f.check_call_in_cache(e["arg"], e["size"])
             try:
@@ -210,59 +569,352 @@ def _run_case(ctx, res, case, idx, requests, pending):
                 res.fail("entry-unusable-after-reduce", desc, repr(ex))
                 continue
             executed = bool(EXEC_LOG)
-            if v != b"x" * e["size"]:
-                res.fail("wrong-value-after-reduce", desc, e)
-            if e["arg"] in deleted and (hit or not executed):
-                res.fail("evicted-entry-still-served", desc, e)
-            if e["arg"] not in deleted and (not hit or executed):
-                res.fail("survivor-not-served-from-cache", desc, e)
-    # request for the model
+            if v != _FILL[e["func"]] * e["size"]:
+                res.fail("wrong-value-after-reduce", desc, spec)
+            if rel in deleted and (hit or not executed):
+                res.fail("evicted-entry-still-served", desc, rel)
+            if rel not in deleted and (not hit or executed):
+                res.fail("survivor-not-served-from-cache", desc, rel)
+
+    # --- request for the model
     tok = lambda v: "-" if v is None else str(v)  # noqa: E731
-    requests.append(" ".join([tok(b_model), tok(il), tok(deadline)] + [f"{a} {s} {t}" for a, s, t in items]))
-    pending.append((desc, deleted, outcome))
-    import shutil
+    barg = "-" if b_arg is None else ("s:" + _cps(bstr) if bstr is not None else f"i:{b}")
+    requests.append(" ".join(["reduce", "0" if case["no_backend"] else "1", barg, tok(il), tok(deadline),
+                              str(len(fault_paths))] + fault_paths + _tree_tokens(tree)))
+    pending.append(("reduce", desc, dict(outcome=outcome, calls=calls, dirs=sorted(dirs_after), items=impl_items_after)))
+    shutil.rmtree(ctx.scratch / f"case{idx}", ignore_errors=True)
 
-    shutil.rmtree(loc, ignore_errors=True)
+
+def _parse_items(toks):
+    n = int(toks[0])
+    body = toks[1:1 + 3 * n]
+    return sorted((body[3 * i], int(body[3 * i + 1]), int(body[3 * i + 2])) for i in range(n)), toks[1 + 3 * n:]
 
 
-def _explore(ctx, n_cases, salt, big=False, cases=None):
+def _judge_store_replies(res, pending, replies):
+    for (kind, desc, impl), rep in zip(pending, replies):
+        toks = rep.split()
+        res.traces_validated += 1
+        if kind == "items":
+            if not toks or toks[0] != "items":
+                raise core.InfraError(f"driver reply {rep!r}")
+            model_items, rest = _parse_items(toks[1:])
+            if rest:
+                raise core.InfraError(f"driver reply {rep!r}")
+            if impl != model_items:
+                res.diverge("get_items", desc, dict(items=impl), dict(items=model_items))
+            continue
+        if toks and toks[0] == "raised":
+            model = dict(outcome="raises:" + toks[1])
+            if impl["outcome"] != model["outcome"]:
+                res.diverge("reduce_size", desc, impl, model)
+            continue
+        if not toks or toks[:2] != ["returned", "calls"]:
+            raise core.InfraError(f"driver reply {rep!r}")
+        if impl["outcome"] != "ok":
+            res.diverge("reduce_size:outcome", desc, impl, dict(outcome="ok"))
+            continue
+        k = int(toks[2])
+        mcalls = toks[3:3 + k]
+        rest = toks[3 + k:]
+        if rest[0] != "dirs":
+            raise core.InfraError(f"driver reply {rep!r}")
+        m = int(rest[1])
+        mdirs = sorted(rest[2:2 + m])
+        rest = rest[2 + m:]
+        if rest[0] != "items":
+            raise core.InfraError(f"driver reply {rep!r}")
+        mitems, rest = _parse_items(rest[1:])
+        if kind == "reduce-no-atime":
+            mitems = [(p, s, 0) for p, s, _ in mitems]
+        model = dict(outcome="ok", calls=mcalls, dirs=mdirs, items=mitems)
+        if impl != model:
+            stream = ("reduce_size:" + ("outcome" if impl["outcome"] != "ok" else "calls" if impl["calls"] != mcalls else
+                                        "tree-after" if impl["dirs"] != mdirs else "inventory-after"))
+            res.diverge(stream, desc, impl, model)
+
+
+# ----------------------------------------------------------------------------- memstr stream
+
+
+_BAD_STRINGS = ["10", "K", "", "1k", "1.2.3K", ".K", "+K", "-K", "--1K", "+-1K", "1+K", "1-2K", "..K", "1..K", "1.5", "1.5k",
+                "1.5T", "5B", "KK", "1KK", "-", "+", ".", "1.5Kb"]
+_OUTSIDE = ["1 K", " 1K", "1e3K", "1E3K", "1_0K", "infK", "nanK", "1e999K", "١K", "0x10K", "1,5K", "1\tK"]
+
+
+def _gen_memstr(rng, n):
+    out = ["0K", "1K", "1.5K", "0.001M", "1.K", ".5K", "+.5K", "-0K", "-1.5K", "0.0009765625K", "0.00048828125K", "1G", "0.5G",
+           "1023.9990234375K", "8388607G", "007K", "00.50M", "+1M", "1.000K", "0.K", "-.5K"]
+    while len(out) < n:
+        unit = rng.choice("KKKMMG")
+        kind = rng.random()
+        if kind < 0.4:  # an exact byte count (boundary) spelt in K or M
+            b = rng.choice([0, 1, 2, 511, 512, 513, 1023, 1024, 1025, 1535, 1536, 1537, rng.randrange(0, 5000),
+                            rng.randrange(0, 900000)])
+            s = _frac_str(b if rng.random() < 0.9 else -b, unit if unit != "G" else "K")
+        else:
+            ip = "".join(rng.choice("0123456789") for _ in range(rng.choice([0, 1, 1, 2, 3, 5])))
+            fp = "".join(rng.choice("0123456789") for _ in range(rng.choice([0, 0, 1, 2, 3, 6])))
+            sign = rng.choice(["", "", "", "+", "-"])
+            dot = "." if fp or rng.random() < 0.3 else ""
+            if not (ip or fp):
+                ip = "0"
+            s = sign + ip + dot + fp + unit
+        if _in_budget(s):
+            out.append(s)
+    return out
+
+
+def _memstr_stream(ctx, res, n):
+    joblib = core.use_repo()
+    from joblib.disk import memstr_to_bytes
+
+    rng = ctx.rng("memstr")
+    good = _gen_memstr(rng, n)
+    mutated = []
+    for s in good[: n // 4]:  # in-alphabet corruptions of valid strings
+        i = rng.randrange(len(s) + 1)
+        mutated.append(s[:i] + rng.choice(".+-K5") + s[i:] if rng.random() < 0.6 else s[:i] + s[i + 1:])
+    strings = good + _BAD_STRINGS + mutated + _OUTSIDE
+    impl = []
+    for s in strings:
+        try:
+            impl.append("ok %d" % memstr_to_bytes(s))
+        except Exception as e:  # noqa: BLE001
+            impl.append(type(e).__name__)
+    replies = ctx.driver().run(["memstr " + " ".join(str(ord(c)) for c in s) for s in strings])
+    for s, im, mo in zip(strings, impl, replies):
+        res.evaluations += 1
+        res.traces_validated += 1
+        alphabet_ok = bool(s) and all(c in "0123456789.+-" for c in s[:-1])
+        in_grammar = alphabet_ok and s[-1] in "KMG" and re.fullmatch(r"[+-]?(\d+(\.\d*)?|\.\d+)", s[:-1]) is not None
+        res.count("memstr:" + ("grammar" if in_grammar else "outside-alphabet" if mo == "outside" else "malformed"))
+        if mo == "outside":
+            continue  # outside the modelled grammar: nothing is claimed
+        if in_grammar:
+            res.nontrivial.add(("memstr", s))
+            if _in_budget(s):
+                exact = "ok %d" % _exact_memstr(s)
+                if im != exact:  # oracle: exact rational arithmetic, not the model
+                    res.fail("memstr-inexact", dict(text=s), dict(impl=im, exact=exact))
+        if im != mo:
+            res.diverge("memstr_to_bytes", dict(text=s), im, mo)
+    # end to end: a malformed bytes_limit makes reduce_size raise and leaves the store alone
+    return strings
+
+
+def _malformed_reduce(ctx, res, requests, pending, idx, text):
+    joblib = core.use_repo()
+    case = dict(entries=[dict(func=0, kind="synth", arg=a, size=600, k=a, extra=0, suffix="x") for a in range(3)],
+                strays=[], lim=None, faults=[], no_backend=False)
+    mem, cached, root, by_rel, base, now = _build_store(ctx, joblib, case, f"bad{idx}")
+    tree = _settled_tree(root, False)
+    dirs_before = _dirs_of(tree)
+    try:
+        mem.reduce_size(bytes_limit=text, items_limit=1)
+        outcome = "ok"
+    except Exception as e:  # noqa: BLE001
+        outcome = "raises:" + type(e).__name__
+    tree_after = _read_tree(root, os.path.basename(root))
+    dirs_after = _dirs_of(tree_after)
+    desc = dict(malformed_bytes_limit=text, items_limit=1, outcome=outcome)
+    res.evaluations += 1
+    res.count("reduce_size:malformed-bytes_limit")
+    if outcome == "ok":
+        res.fail("malformed-bytes_limit-accepted", desc, outcome)
+    elif dirs_after != dirs_before:
+        res.fail("malformed-bytes_limit-deletes", desc, sorted(set(dirs_before) - set(dirs_after)))
+    requests.append(" ".join(["reduce", "1", "s:" + _cps(text), "1", "-", "0"] + _tree_tokens(tree)))
+    pending.append(("reduce", desc, dict(outcome=outcome)))
+    shutil.rmtree(ctx.scratch / f"casebad{idx}", ignore_errors=True)
+
+
+# ----------------------------------------------------------------------------- nested hash directories (finding)
+
+
+def _nested_case(ctx, res, requests, pending, idx, variant):
+    """A store in which a directory that is NOT an entry has a name starting with 32 hex digits.
+    variant: 'func-newest' | 'func-lru' (a cached function with such a name) | 'root' (Memory(pathlib.Path(<such a name>)))."""
+    import pathlib
+
+    joblib = core.use_repo()
+    Faulty = _backend(joblib)
+    Faulty.armed = False
+    EXEC_LOG.clear()
+    if variant == "root":
+        loc = ctx.scratch / f"nested{idx}" / "0123456789abcdef0123456789abcdef"
+        mem = joblib.Memory(pathlib.Path(loc), backend="c18faulty", verbose=0)
+        fn = _payload
+    else:
+        loc = ctx.scratch / f"nested{idx}"
+        mem = joblib.Memory(str(loc), backend="c18faulty", verbose=0)
+        fn = _hexnamed
+    root = mem.store_backend.location
+    f = mem.cache(fn)
+    ents = {}
+    for a in range(3):
+        ref = f.call_and_shelve(a, 100)
+        ents[a] = os.path.join(root, ref.func_id, ref.args_id)
+    time.sleep(0.02)
+    _warm(root)  # the first listing after the last write settles the directories' access times ...
+    now = int(time.time())
+    for a, p in ents.items():  # ... and the entries are read after that (func-lru, root) or were read long before
+        t = now + 1000 * (a + 1) if variant != "func-newest" else now - 100000 - 1000 * a
+        os.utime(os.path.join(p, "output.pkl"), (t, t))
+    tree = _settled_tree(root, True)
+    dirs_before = _dirs_of(tree)
+    inv = {p: (s, a) for p, s, a in _own_inventory(tree)}
+    items = [(os.path.relpath(p, root), ) + inv[os.path.relpath(p, root)] for p in ents.values()]  # the ENTRIES only
+    il = len(items)  # already met by the entries
+    Faulty.calls, Faulty.stale, Faulty.armed = [], set(), True
+    try:
+        mem.reduce_size(items_limit=il)
+        outcome = "ok"
+    except Exception as e:  # noqa: BLE001
+        outcome = "raises:" + type(e).__name__
+    finally:
+        Faulty.armed = False
+    calls = [os.path.relpath(p, root) for p in Faulty.calls]
+    tree_after = _read_tree(root, os.path.basename(root))
+    dirs_after = _dirs_of(tree_after)
+    gone = set(dirs_before) - set(dirs_after)
+    deleted = sorted(p for p, _, _ in items if p in gone)
+    impl_items_after = sorted((os.path.relpath(it.path, root), it.size, _dt_us(it.last_access)) for it in mem.store_backend.get_items())
+    desc = dict(nested=variant, items=items, items_limit=il, deleted=deleted, calls=calls, outcome=outcome)
+    res.evaluations += 1
+    res.count("nested-hash-dir:" + variant)
+    res.nontrivial.add(("nested", variant))
+    if outcome != "ok":
+        res.fail("reduce_size-" + outcome, desc, outcome)
+    # F47 predicts exactly this: the hash-named non-entry directory is a further item, so one more item than entries is
+    # evicted from the LRU end - the oldest entry (func-newest), or the function directory / store location itself and with
+    # it every entry. Only that shape gets the known signature; any other misbehaviour here is reported as it is.
+    lru = min(items, key=lambda t: t[2])[0]
+    func_rel = os.path.dirname(items[0][0])
+    predicted = dict(calls=[lru], deleted=[lru]) if variant == "func-newest" else \
+        dict(calls=["." if variant == "root" else func_rel], deleted=sorted(p for p, _, _ in items))
+    for sig in _oracle(items, set(deleted), None, il, None):
+        if sig == "evicted-more-than-needed" and dict(calls=calls, deleted=deleted) == predicted:
+            res.fail("nested-hash-dir:evicted-more-than-needed", desc, sig)
+        else:
+            res.fail("nested-hash-dir:unexpected:" + sig, desc, dict(predicted=predicted))
+    requests.append(" ".join(["reduce", "1", "-", str(il), "-", "0"] + _tree_tokens(tree)))
+    # removing its sub-directories changes a directory, so the next listing refreshes its access time (relatime): the age
+    # of the hash-named function directory / store location AFTER the call is not compared (the model has no clock)
+    pending.append(("reduce-no-atime", desc, dict(outcome=outcome, calls=calls, dirs=sorted(dirs_after),
+                                                  items=[(p, s, 0) for p, s, _ in impl_items_after])))
+    shutil.rmtree(ctx.scratch / f"nested{idx}", ignore_errors=True)
+
+
+# ----------------------------------------------------------------------------- corpus (regressions found by review)
+
+
+def _corpus():
+    E = lambda func, arg, k, kind="real", size=100: dict(func=func, kind=kind, arg=arg, size=size, k=k, extra=0, suffix="x")  # noqa: E731
+    shared = [E(0, 1, 9), E(1, 1, 8), E(0, 2, 7), E(1, 2, 6), E(0, 3, 5), E(1, 3, 4)]
+    one = [E(0, a, 9 - a) for a in range(6)]
+    return [
+        # two functions called with equal arguments: every entry counts (get_items keyed by basename hides half of them)
+        dict(entries=[dict(e) for e in shared], strays=[], lim=(None, None, 4, None), faults=[], no_backend=False),
+        dict(entries=[dict(e) for e in shared], strays=[], lim=(700, None, None, None), faults=[], no_backend=False),
+        dict(entries=[dict(e) for e in shared] + [E(2, 1, 3), E(2, 2, 2)], strays=["file-in-func"], lim=(None, None, 3, None),
+             faults=[1], no_backend=False),
+        # a selected entry is already gone when it is deleted (stale handle): the rest still has to go
+        dict(entries=[dict(e) for e in one], strays=[], lim=(None, None, 2, None), faults=[0], no_backend=False),
+        dict(entries=[dict(e) for e in one], strays=[], lim=(None, "0.5K", None, None), faults=[1], no_backend=False),
+        dict(entries=[dict(e) for e in one], strays=[], lim=(None, None, 2, None), faults=[3], no_backend=False),
+        dict(entries=[dict(e) for e in one], strays=[], lim=(None, None, 1, 3), faults=[0, 2, 4], no_backend=False),
+        # names that merely start with 32 hex digits are entries for the store; 31 digits / upper case are not
+        dict(entries=[E(0, 1, 5), E(0, 2, 4, "prefix", 300), E(0, 3, 3, "prefix", 0), E(0, 4, 2, "synth", 10)],
+             strays=["dir31", "dirUPPER", "plain-dir"], lim=(None, None, 2, None), faults=[], no_backend=False),
+        # unreadable entries are skipped by the inventory
+        dict(entries=[E(0, 1, 5), E(0, 2, 9, "unreadable", 300), E(0, 3, 8, "pklgone", 40), E(0, 4, 2, "incomplete", 10)],
+             strays=[], lim=(None, None, 1, None), faults=[], no_backend=False),
+        # files in a sub-directory of an entry are not part of its size
+        dict(entries=[E(0, 1, 5, "synth", 300), dict(E(0, 2, 9, "synth", 300), sub=700), E(0, 3, 8, "synth", 300)],
+             strays=[], lim=(900, None, None, None), faults=[], no_backend=False),
+        dict(entries=[dict(e) for e in one], strays=[], lim=(None, None, 0, None), faults=[], no_backend=True),
+        dict(entries=[dict(e) for e in one], strays=[], lim=(None, None, None, None), faults=[], no_backend=False),
+    ]
+
+
+# ----------------------------------------------------------------------------- entry points
+
+
+def _explore(ctx, n_cases, salt, big=False, cases=None, memstr_n=0, malformed=True):
     res = Result()
-    res.rule = ("inventories of 0..8 (thorough: ..20) entries built on disk (real cached calls + synthetic entries), "
-                "sizes incl. 0, access times with frequent ties; limits boundary-biased (None, 0, exact fit of every LRU suffix, +-1, "
-                "'1K'-style strings); non-trivial = non-empty inventory with at least one limit; distinct by (sizes, relative access times, limits)")
+    res.rule = ("stores of 0..8 (thorough: ..20) entries of 1-3 cached functions built on disk (real cached calls with EQUAL "
+                "arguments across functions, synthetic entries, prefix-named / incomplete / unreadable entries, stray files and "
+                "directories), sizes incl. 0, access times with frequent ties; limits boundary-biased (None, 0, exact fit of every LRU "
+                "suffix, +-1, as int or as fractional K/M string); clear_location faults at the first / middle / last / several selected "
+                "entries; non-trivial = non-empty inventory with at least one limit, distinct by (function directory, sizes, relative "
+                "access times, limits, faults); plus size strings of the modelled grammar (distinct strings)")
     rng = ctx.rng(salt)
     requests, pending = [], []
-    todo = cases if cases is not None else [_gen_case(rng, big) for _ in range(n_cases)]
+    todo = cases if cases is not None else _corpus() + [_gen_case(rng, big) for _ in range(n_cases)]
     for idx, case in enumerate(todo):
         _run_case(ctx, res, case, f"{salt}{idx}", requests, pending)
+    if malformed:
+        for i, text in enumerate(["10", "K", "1k", "1.2.3K", "", "+K"]):
+            _malformed_reduce(ctx, res, requests, pending, f"{salt}{i}", text)
+    if RUN_NESTED_STREAM and malformed:
+        for i, variant in enumerate(["func-newest", "func-lru", "root"]):
+            _nested_case(ctx, res, requests, pending, f"{salt}{i}", variant)
     replies = ctx.driver().run(requests)
-    for (desc, deleted, outcome), rep in zip(pending, replies):
-        m = re.fullmatch(r"del((?: \d+)*)", rep.strip())
-        if not m:
-            raise core.InfraError(f"driver reply {rep!r}")
-        model_deleted = sorted(int(x) for x in m.group(1).split())
-        res.traces_validated += 1
-        if outcome != "ok" or model_deleted != deleted:
-            res.diverge("deleted-set", desc, dict(deleted=deleted, outcome=outcome), dict(deleted=model_deleted))
-    res.assumptions = ["no concurrent writer during reduce_size", "access times are whole seconds, >= 400 s away from the deadline"]
+    _judge_store_replies(res, pending, replies)
+    if memstr_n:
+        _memstr_stream(ctx, res, memstr_n)
+    res.assumptions = ["no concurrent writer during reduce_size",
+                       "access times >= 400 s away from the deadline (now - age_limit is computed inside the call)",
+                       "no entry directory nested in another entry directory (no cached function / module whose name starts with 32 hex digits)",
+                       "size strings: digits * unit < 2**53"]
     return res
 
 
 def run(ctx):
     if ctx.replay:
         case = ctx.replay.get("case", {})
-        items = case.get("items", [])
-        base_k = {a: k for a, (_, _, k) in zip(range(len(items)), items)}
-        # rebuild an equivalent synthetic inventory (sizes/relative order) and the same limits
-        accs = sorted({t for _, _, t in items}, reverse=True)
-        entries = [dict(real=False, arg=a, size=s, k=accs.index(t)) for a, s, t in items]
-        j = case.get("deadline_rel")
-        c = dict(entries=entries, lim=(case.get("bytes_limit") if not isinstance(case.get("bytes_limit"), str) else None,
-                                       case.get("bytes_limit") if isinstance(case.get("bytes_limit"), str) else None,
-                                       case.get("items_limit"), j))
-        return _explore(ctx, 1, "replay", cases=[c])
-    return _explore(ctx, 1500 if ctx.thorough else 250, "main", big=ctx.thorough)
+        if "text" in case:
+            res = Result()
+            _memstr_one = [case["text"]]
+            joblib = core.use_repo()
+            from joblib.disk import memstr_to_bytes
+
+            try:
+                im = "ok %d" % memstr_to_bytes(_memstr_one[0])
+            except Exception as e:  # noqa: BLE001
+                im = type(e).__name__
+            res.evaluations = 1
+            s = _memstr_one[0]
+            try:
+                exact = "ok %d" % _exact_memstr(s)
+                if _in_budget(s) and im != exact:
+                    res.fail("memstr-inexact", dict(text=s), dict(impl=im, exact=exact))
+            except (ValueError, KeyError, IndexError):
+                pass
+            mo = ctx.driver().run(["memstr " + " ".join(str(ord(c)) for c in s)])[0]
+            if mo != "outside" and mo != im:
+                res.diverge("memstr_to_bytes", dict(text=s), im, mo)
+            return res
+        if "nested" in case:
+            res = Result()
+            requests, pending = [], []
+            _nested_case(ctx, res, requests, pending, "replay", case["nested"])
+            _judge_store_replies(res, pending, ctx.driver().run(requests))
+            return res
+        if "malformed_bytes_limit" in case:
+            res = Result()
+            requests, pending = [], []
+            _malformed_reduce(ctx, res, requests, pending, "replay", case["malformed_bytes_limit"])
+            _judge_store_replies(res, pending, ctx.driver().run(requests))
+            return res
+        spec = case.get("spec", {})
+        c = dict(entries=[dict(e) for e in spec.get("entries", [])], strays=list(spec.get("strays", [])),
+                 lim=tuple(case["lim"]) if "lim" in case else None, faults=case.get("faults"),
+                 no_backend=spec.get("no_backend", False))
+        return _explore(ctx, 1, "replay", cases=[c], malformed=False)
+    return _explore(ctx, 4000 if ctx.thorough else 500, "main", big=ctx.thorough, memstr_n=20000 if ctx.thorough else 1000)
 
 
 def search(ctx, res):
-    return _explore(ctx, 3000, "search", big=True)
+    return _explore(ctx, 3000, "search", big=True, memstr_n=6000)
